@@ -7,6 +7,8 @@ import (
 	"fmt"
 	"os"
 	"path/filepath"
+	"runtime/debug"
+	"runtime/pprof"
 	"sort"
 	"strconv"
 	"strings"
@@ -25,21 +27,34 @@ func usage() {
 }
 
 func main() {
+	if pf := os.Getenv("SSE_PROF"); pf != "" {
+		f, _ := os.Create(pf)
+		pprof.StartCPUProfile(f)
+		defer pprof.StopCPUProfile()
+	}
+	code := realMain()
+	pprof.StopCPUProfile()
+	os.Exit(code)
+}
+
+func realMain() int {
+	debug.SetGCPercent(400)
 	if len(os.Args) < 2 {
 		usage()
 	}
 	switch os.Args[1] {
 	case "check":
-		os.Exit(cmdCheck(os.Args[2:]))
+		return cmdCheck(os.Args[2:])
 	case "replay":
-		os.Exit(cmdReplay(os.Args[2:]))
+		return cmdReplay(os.Args[2:])
 	case "list":
-		os.Exit(cmdList())
+		return cmdList()
 	case "selfcheck":
-		os.Exit(cmdSelfcheck(os.Args[2:]))
+		return cmdSelfcheck(os.Args[2:])
 	default:
 		usage()
 	}
+	return 0
 }
 
 var allPatterns = []string{".", "./codec/websocket", "./codec/frame", "./bytes", "./multicast", "./internal", "./net/ipv4", "./internal/vf"}
@@ -85,6 +100,7 @@ func cmdCheck(args []string) int {
 	solver := fs.String("solver", "race", "z3|z3-new|cvc5")
 	noReplay := fs.Bool("no-replay", false, "skip native replays (debugging only; result is then inconclusive if anything needed one)")
 	keep := fs.Bool("keep", false, "keep temp dir")
+	budget := fs.Duration("budget", 0, "stop exploring after this long (result is then inconclusive)")
 	noEvidence := fs.Bool("no-evidence", false, "do not write the evidence file (partial debugging runs)")
 	fs.Parse(args[1:])
 	if t := os.Getenv("VERIF_TIER"); t != "" {
@@ -121,7 +137,7 @@ func cmdCheck(args []string) int {
 		return 2
 	}
 	interp.Tier = *tier
-	opt := driver.Options{Property: prop, Tier: *tier, Seed: seed, Workers: *workers, Solver: *solver, Verbose: *verbose, NoReplay: *noReplay}
+	opt := driver.Options{Property: prop, Tier: *tier, Seed: seed, Workers: *workers, Solver: *solver, Verbose: *verbose, NoReplay: *noReplay, Budget: *budget}
 	loadS := time.Since(t0).Seconds()
 	rep, err := driver.Explore(l, names, opt)
 	if err != nil {
